@@ -443,7 +443,7 @@ class PlannerSpec(FuncSpec):
     regular = False
     bound = 2
     max_paths = 6000
-    max_seconds = 900
+    max_seconds = 1800  # rank 2 (thorough) needs most of an hour of nonlinear solving
 
     quick_props = ("C14", "C05")
 
